@@ -160,7 +160,46 @@ class ExprMixin:
                 f = self.prog.resolve(r[2], c.func.id)
                 if f and f[0] == "ext" and f[1].split(".")[-1] == "attrgetter":
                     return ("attrgetter", tuple(a.value for a in c.args))
+            st_ = self._static_term(c, r[2], 0)
+            if st_ is not None:
+                return st_
             return ("global", r[2].name + "." + name)
+        return None
+
+    def _static_term(self, c, module, depth):
+        """A module-level table written as a display whose elements are not all constants - rows of (name, operator.methodcaller(..)),
+        of (lambda r: test, lambda r: Exc(..)) - as a display of known length.  None when an element is something else."""
+        if depth > 3:
+            return None
+        if isinstance(c, ast.Constant):
+            return const(c.value)
+        if isinstance(c, (ast.Tuple, ast.List)) and len(c.elts) <= 24:
+            items = [self._static_term(e, module, depth + 1) for e in c.elts]
+            if any(i is None for i in items) or (depth == 0 and not items):
+                return None
+            return ("tuple", tuple(items))
+        if depth == 0:
+            return None          # only displays are tables; anything else keeps its own treatment
+        if isinstance(c, ast.Lambda):
+            return ("lambda", c, (), 0)
+        ok, v = self.prog.try_fold(c, module)
+        if ok and not isinstance(v, (dict, list)):
+            return const(v)
+        if isinstance(c, ast.Name):
+            rr = self.prog.resolve(module, c.id)
+            if rr is not None and rr[0] in ("class", "func", "ext", "module"):
+                return self._resolved_to_term(rr, c.id)
+            return None
+        if isinstance(c, ast.Call) and not c.keywords and c.args and all(isinstance(a, ast.Constant) for a in c.args):
+            fn = c.func
+            nm = fn.id if isinstance(fn, ast.Name) else (fn.attr if isinstance(fn, ast.Attribute) else None)
+            f = self.prog.resolve(module, fn.id) if isinstance(fn, ast.Name) else None
+            is_op = (f is not None and f[0] == "ext" and f[1].split(".")[-1] == nm) or (
+                isinstance(fn, ast.Attribute) and isinstance(fn.value, ast.Name) and fn.value.id == "operator")
+            if is_op and nm == "methodcaller" and isinstance(c.args[0].value, str):
+                return ("methodcaller", c.args[0].value, tuple(const(a.value) for a in c.args[1:]))
+            if is_op and nm == "attrgetter" and all(isinstance(a.value, str) for a in c.args):
+                return ("attrgetter", tuple(a.value for a in c.args))
         return None
 
     def _namedtuple_def(self, c, module):
@@ -669,6 +708,9 @@ class ExprMixin:
         for r, ts, s in self.ev_list(n.values, st, fx):
             if r == "raise":
                 yield r, ts, s
+            elif isinstance(n.op, ast.Or) and len(ts) == 2 and ts[1] == NONE:
+                # `x or None`: x where it is set, None where it is not - for an optional value (None or an object) that is x itself
+                yield "ok", ts[0], s
             else:
                 yield "ok", ("boolop", type(n.op).__name__, tuple(ts)), s
 
@@ -733,7 +775,7 @@ class ExprMixin:
         if not isinstance(t, tuple):
             return None
         if t[0] in ("new", "bm", "func", "cls", "closure", "timer", "dfr", "exc", "tuple", "reg", "regtop", "sentinel",
-                    "loopcall", "encres", "lambda", "partial", "attrgetter", "functable"):
+                    "loopcall", "encres", "lambda", "partial", "attrgetter", "methodcaller", "functable"):
             return True
         if t[0] in ("elem", "popped"):
             return True     # what a registry holds is a request object (emit() refuses a None stored into a registry)
@@ -835,6 +877,27 @@ class ExprMixin:
                 yield "ok", t, s
 
     def e_Dict(self, n, st, fx):
+        # a small display with constant keys keeps its structure (a table of fields handed to a setattr loop, say); `{}` and
+        # everything else stays an opaque fresh dict
+        if n.keys and len(n.keys) <= 24 and all(k is not None for k in n.keys):
+            def go(i, s, acc):
+                if i == len(n.keys):
+                    yield "ok", ("dict", tuple(acc)), s
+                    return
+                for r, k, s1 in self.ev(n.keys[i], s, fx):
+                    if r == "raise":
+                        yield r, k, s1
+                        continue
+                    for r2, v, s2 in self.ev(n.values[i], s1, fx):
+                        if r2 == "raise":
+                            yield r2, v, s2
+                        elif not is_const(k):
+                            yield "ok", ("dictlit", s2.uid()), s2
+                            return
+                        else:
+                            yield from go(i + 1, s2, acc + [(k, v)])
+            yield from go(0, st, [])
+            return
         yield "ok", ("dictlit", st.uid()), st
 
     def _comprehension(self, n, elts, st, fx):
